@@ -394,13 +394,13 @@ pub async fn run_async(plan: &PlanA, opts: &ExecOpts) -> RunResult {
         /* control steps first, in plan order */
         let mut dhcp_steps: Vec<(usize, &MsgSpec)> = vec![];
         let mut raw_steps: Vec<(usize, usize, &Vec<u8>)> = vec![];
-        let mut http_steps: Vec<(usize, &String, &HttpVia)> = vec![];
+        let mut http_steps: Vec<(usize, &String, &HttpVia, u8)> = vec![];
         let mut acl_steps: Vec<(usize, &String, &String, &String)> = vec![];
         for (si, st) in &group {
             match &st.kind {
                 StepKind::Dhcp(m) => dhcp_steps.push((*si, m)),
                 StepKind::Raw { lan, data } => raw_steps.push((*si, *lan, data)),
-                StepKind::Http { path, via, .. } => http_steps.push((*si, path, via)),
+                StepKind::Http { path, via, aim, .. } => http_steps.push((*si, path, via, *aim)),
                 StepKind::AclHttp { path, from, to } => acl_steps.push((*si, path, from, to)),
                 StepKind::ClockJump(d) => {
                     crate::interpose::add_skew_secs(*d);
@@ -972,7 +972,7 @@ pub async fn run_async(plan: &PlanA, opts: &ExecOpts) -> RunResult {
         }
 
         // ---- HTTP steps (C20), sequential by construction
-        for (si, path, via) in &http_steps {
+        for (si, path, via, aim) in &http_steps {
             let (from, to) = match via {
                 HttpVia::Tcp4 => (Addr::Inet("127.0.0.1:40000".parse().unwrap()), Addr::Inet("127.0.0.1:9968".parse().unwrap())),
                 HttpVia::Tcp6 => (Addr::Inet("[::1]:40000".parse().unwrap()), Addr::Inet("[::1]:9968".parse().unwrap())),
@@ -981,8 +981,20 @@ pub async fn run_async(plan: &PlanA, opts: &ExecOpts) -> RunResult {
                 HttpVia::UnixUnnamed => (Addr::Unix(UnixName::Unnamed), Addr::Unix(UnixName::Path(b"/var/lib/erbium/control".to_vec()))),
             };
             let rows = vfs::read_rows().ok().map(|r| r.0).unwrap_or_default();
+            if *aim > 0 && path.ends_with("metrics") {
+                /* aim the scrape at the second before / of / after the next expiry */
+                let now = crate::interpose::wall_now_secs();
+                if let Some(next) = rows.iter().map(|r| r.expiry).filter(|e| *e > now).min() {
+                    let target = next + *aim as i64 - 2;
+                    if target > now && target - now <= 100_000 {
+                        tokio::time::sleep(Duration::from_secs((target - now) as u64)).await;
+                        res.probe(match *aim { 1 => "C20.scrape_one_second_before_an_expiry", 2 => "C20.scrape_in_the_second_of_an_expiry", _ => "C20.scrape_one_second_after_an_expiry" });
+                    }
+                }
+            }
             let wall = crate::interpose::wall_now_secs();
             let reply = http_get(&kernel, from, to, path).await;
+            let wall_after = crate::interpose::wall_now_secs();
             for (loc, msg) in crate::common::take_panics() {
                 if loc.contains("addr/mod.rs") {
                     res.violate("C08", "C08.unix_peer_address_kills_api_listener", format!("accepting a unix-socket client ({:?}) panicked at {} ({}); the listener task is gone", via, loc, msg), *si);
@@ -998,7 +1010,7 @@ pub async fn run_async(plan: &PlanA, opts: &ExecOpts) -> RunResult {
                     if path.ends_with("leases.json") {
                         check_listing(&mut res, &rep.body, &rows, *si);
                     } else {
-                        check_gauges(&mut res, &rep.body, &rows, wall, *si);
+                        check_gauges(&mut res, &rep.body, &rows, wall, wall_after, *si);
                     }
                 }
             }
@@ -1228,20 +1240,27 @@ fn check_listing(res: &mut RunResult, body: &[u8], rows: &[Row], step: usize) {
     }
 }
 
-fn check_gauges(res: &mut RunResult, body: &[u8], rows: &[Row], now: i64, step: usize) {
+/// The gauges are computed while the request is served, i.e. at some second in
+/// [now, now_hi]; when the request began and ended within one second the expected
+/// values are exact (active: expiry > now, expired: expiry <= now).
+fn check_gauges(res: &mut RunResult, body: &[u8], rows: &[Row], now: i64, now_hi: i64, step: usize) {
     res.probe("C20.metrics_fetched");
     let text = String::from_utf8_lossy(body);
     let gauge = |name: &str| -> Option<f64> {
         text.lines().find(|l| l.starts_with(name) && l[name.len()..].starts_with(' ')).and_then(|l| l[name.len()..].trim().parse().ok())
     };
-    let active_lo = rows.iter().filter(|r| r.expiry > now).count() as f64;
-    let active_hi = rows.iter().filter(|r| r.expiry >= now).count() as f64;
-    let expired_lo = rows.iter().filter(|r| r.expiry < now).count() as f64;
-    let expired_hi = rows.iter().filter(|r| r.expiry <= now).count() as f64;
+    let now_hi = now_hi.max(now);
+    let active_lo = rows.iter().filter(|r| r.expiry > now_hi).count() as f64;
+    let active_hi = rows.iter().filter(|r| r.expiry > now).count() as f64;
+    let expired_lo = rows.iter().filter(|r| r.expiry <= now).count() as f64;
+    let expired_hi = rows.iter().filter(|r| r.expiry <= now_hi).count() as f64;
+    if now == now_hi && rows.iter().any(|r| r.expiry == now) {
+        res.probe("C20.gauges_judged_exactly_at_an_expiry_second");
+    }
     if rows.is_empty() {
         res.probe("C20.gauges_of_empty_store");
     }
-    if !rows.is_empty() && active_hi == 0.0 {
+    if !rows.is_empty() && rows.iter().all(|r| r.expiry < now) {
         res.probe("C20.all_leases_expired");
     }
     for (name, lo, hi) in [("dhcp_active_leases", active_lo, active_hi), ("dhcp_expired_leases", expired_lo, expired_hi)] {
